@@ -283,8 +283,18 @@ def _objectpath(ck: Checker) -> None:
     prog = ck.prog
     get = prog.func("index.index", "ObjectStorage.get")
     gk = prog.func("index.index", "ObjectStorage.get_key")
-    r1 = [norm(r.value) for r in walk_own(get.node) if isinstance(r, ast.Return) and r.value is not None]
-    r2 = [norm(r.value) for r in walk_own(gk.node) if isinstance(r, ast.Return) and r.value is not None]
+    def _canon_self(fn_, t):
+        # `odb = self.odb` / `hash_info = entry.hash_info` read once into a local: put back
+        import re as _re3
+
+        for nm_, ds_ in scope_of(fn_).defs.items():
+            vals = [getattr(d_, "value", None) for d_ in ds_ if d_.kind in ("assign", "annassign")]
+            if len(vals) == 1 and len(ds_) == 1 and isinstance(vals[0], ast.Attribute) and not fn_.has_param(nm_):
+                t = _re3.sub(rf"(?<![\w.]){_re3.escape(nm_)}(?!\w)", norm(vals[0]), t)
+        return t
+
+    r1 = [_canon_self(get, norm(r.value)) for r in walk_own(get.node) if isinstance(r, ast.Return) and r.value is not None]
+    r2 = [_canon_self(gk, norm(r.value)) for r in walk_own(gk.node) if isinstance(r, ast.Return) and r.value is not None]
     ck.require(r1 == ["(self.odb.fs, self.odb.oid_to_path(entry.hash_info.value))"], "C18.objectpath", get, get.node, "object path is odb.oid_to_path(entry.hash_info.value) on the store's fs", f"ObjectStorage.get returns {r1}")
     ck.require(r2 == ["self.odb._oid_parts(entry.hash_info.value)"], "C18.objectpath", gk, gk.node, "object key is odb._oid_parts(entry.hash_info.value)", f"ObjectStorage.get_key returns {r2}")
 
